@@ -8,10 +8,10 @@ SEQ_CONSTS = dict(Keys={1, 2}, Vals={"x"}, MaxOps=5, Base=0,
                   ExpKinds={"zero", "cur", "stale", "fut"},
                   OpKinds={"create", "update", "delete", "compact"},
                   CompactKinds={"zero", "cur-1", "old", "above"},
-                  EventKeys=set(), Expiry=False, CompactAfter=0, DelFaultKinds=set(), StreamBatch=1, StreamRestarts=False, ResetOnRestart=True, GenHist=False)
+                  EventKeys=set(), Expiry=False, CompactAfter=0, DelFaultKinds=set(), StreamBatch=1, StreamRestarts=False, ResetOnRestart=True, ErrIsAbsent=False, GenHist=False)
 
 MC_INV = {
-    "C03": ["ScanIsSnapshot", "PointIsSnapshot", "IndexAgrees"],
+    "C03": ["ScanIsSnapshot", "PointIsSnapshot", "IndexAgrees", "PointFaultInvariant"],
     "C08": ["FloorMonotone", "FloorAccepted", "ScanIsSnapshot"],
     "C13": ["PartitionInvariant", "StreamInvariant", "StreamFaultInvariant"],
     "C07": ["CompactionSafe", "IndexAgrees"],
